@@ -40,6 +40,17 @@ def magic_words(v):
             return tuple(int.from_bytes(raw[i:i + 4], 'little') for i in range(0, len(raw), 4))
     if v[0] == 'agg' and v[3] and all(psi.is_int_const(x) for x in v[3]):
         return tuple(x[1] for x in v[3])
+    # an iterator / element-wise walk over one constant array (`magic.iter()`): all of its words, when every element is visited
+    ks = [y for y in psi.walk(v) if isinstance(y, tuple) and len(y) == 2 and y[0] == 'ref' and isinstance(y[1], tuple) and
+          y[1] and isinstance(y[1][0], tuple) and y[1][0] and y[1][0][0] == 'K']
+    if ks and len({y[1][0][1] for y in ks}) == 1:
+        raw = bytes.fromhex(ks[0][1][0][1])
+        if raw and len(raw) % 4 == 0:
+            words = tuple(int.from_bytes(raw[i:i + 4], 'little') for i in range(0, len(raw), 4))
+            idx = {y[1][1][0][1] for y in ks if y[1][1] and y[1][1][0][0] == 'f'}
+            whole = any(not y[1][1] for y in ks)
+            if whole or idx == set(range(len(words))):
+                return words
     return None
 
 
